@@ -16,7 +16,7 @@ use std::time::Instant;
 use exec::{now_ms, Beacon, Exec};
 use gen::{Ctx, Rng};
 
-fn json_str(s: &str) -> String {
+pub fn json_str(s: &str) -> String {
     let mut o = String::from("\"");
     for c in s.chars() {
         match c {
@@ -136,6 +136,7 @@ fn run_one_suite(suite: &str, seed: u64, thorough: bool, driver: &str, outdir: &
             if s != 0 && now_ms().saturating_sub(s) > 20_000 {
                 let line = b.line.lock().unwrap().clone();
                 let _ = std::fs::write(format!("{}/{}.hang", outdir, suite), format!("{}\n", line));
+                let _ = std::fs::copy(format!("{}/{}.current.ops", outdir, suite), format!("{}/{}.hang.ops", outdir, suite));
                 eprintln!("HANG suite={} line={}", suite, line);
                 std::process::exit(3);
             }
@@ -144,6 +145,8 @@ fn run_one_suite(suite: &str, seed: u64, thorough: bool, driver: &str, outdir: &
     let mut h = exec::fnv1a(suite);
     h ^= seed.wrapping_mul(0x9E3779B97F4A7C15);
     let mut cx = Ctx { ex: Exec::new(beacon), rng: Rng(h), thorough, samples: vec![], notes: vec![] };
+    cx.ex.log_prefix = Some(format!("{}/{}", outdir, suite));
+    let _ = std::fs::remove_file(format!("{}/{}.failures.jsonl", outdir, suite));
     let known = gen::run_suite(suite, &mut cx);
     if !known {
         return SuiteResult { json: format!("{{\"suite\":{},\"error\":\"unknown suite\"}}", json_str(suite)), bad: true };
@@ -155,19 +158,10 @@ fn run_one_suite(suite: &str, seed: u64, thorough: bool, driver: &str, outdir: &
         Err(e) => (vec![], Some(e)),
     };
     let dis = compare(ex, &model, outdir, suite, 10);
-    // oracle failures: write a replay file for each (the case prefix up to the failing line)
+    // oracle failures: the replay file of each was written when it was found
     let mut fail_json = vec![];
-    let mut starts = ex.case_starts.clone();
-    starts.push(ex.lines.len());
     for (k, f) in ex.failures.iter().enumerate() {
         let file = format!("{}/{}.oracle{}.ops", outdir, suite, k + 1);
-        let s = starts[f.case - 1];
-        let mut body = String::new();
-        for l in &ex.lines[s..(s + f.line_no).min(ex.lines.len())] {
-            body.push_str(l);
-            body.push('\n');
-        }
-        let _ = std::fs::write(&file, body);
         fail_json.push(format!(
             "{{\"props\":{},\"case\":{},\"line_no\":{},\"line\":{},\"msg\":{},\"file\":{}}}",
             json_list(&f.props.iter().map(|p| json_str(p)).collect::<Vec<_>>()),
@@ -301,6 +295,23 @@ fn main() {
             }
             std::process::exit(if bad { 1 } else { 0 });
         }
+        "run-one" => {
+            let suite = arg(&args, "--suite").expect("--suite");
+            let seed: u64 = arg(&args, "--seed").and_then(|s| s.parse().ok()).unwrap_or(1);
+            let thorough = arg(&args, "--tier").map_or(false, |t| t == "thorough");
+            let driver = arg(&args, "--driver").expect("--driver <path>");
+            let outdir = arg(&args, "--outdir").expect("--outdir <dir>");
+            std::fs::create_dir_all(&outdir).unwrap();
+            let (s2, d2, o2) = (suite.clone(), driver.clone(), outdir.clone());
+            let r = std::thread::Builder::new().stack_size(512 << 20).spawn(move || run_one_suite(&s2, seed, thorough, &d2, &o2)).unwrap().join();
+            match r {
+                Ok(r) => {
+                    std::fs::write(format!("{}/{}.json", outdir, suite), &r.json).unwrap();
+                    std::process::exit(if r.bad { 1 } else { 0 });
+                }
+                Err(_) => std::process::exit(4),
+            }
+        }
         "run" => {
             let suites = arg(&args, "--suites").unwrap_or_else(|| gen::ALL_SUITES.join(","));
             let seed: u64 = arg(&args, "--seed").and_then(|s| s.parse().ok()).unwrap_or(1);
@@ -308,30 +319,51 @@ fn main() {
             let driver = arg(&args, "--driver").expect("--driver <path>");
             let outdir = arg(&args, "--outdir").expect("--outdir <dir>");
             std::fs::create_dir_all(&outdir).unwrap();
-            let mut handles = vec![];
+            // one child process per suite: a hang or an abort in one suite cannot take the others down
+            let exe = std::env::current_exe().unwrap();
+            let mut children = vec![];
             for s in suites.split(',') {
-                let (s, driver, outdir) = (s.to_string(), driver.clone(), outdir.clone());
-                handles.push((
-                    s.clone(),
-                    std::thread::Builder::new()
-                        .stack_size(512 << 20)
-                        .spawn(move || run_one_suite(&s, seed, thorough, &driver, &outdir))
-                        .unwrap(),
-                ));
+                let child = Command::new(&exe)
+                    .args(["run-one", "--suite", s, "--tier", if thorough { "thorough" } else { "quick" }, "--seed", &seed.to_string(), "--driver", &driver, "--outdir", &outdir])
+                    .stdout(Stdio::null())
+                    .stderr(Stdio::null())
+                    .spawn();
+                children.push((s.to_string(), child));
             }
             let mut any_bad = false;
-            for (s, h) in handles {
-                match h.join() {
-                    Ok(r) => {
-                        std::fs::write(format!("{}/{}.json", outdir, s), &r.json).unwrap();
-                        any_bad |= r.bad;
-                        println!("suite {} {}", s, if r.bad { "BAD" } else { "ok" });
+            for (s, c) in children {
+                let code = match c {
+                    Ok(mut ch) => ch.wait().ok().and_then(|st| st.code()).unwrap_or(-1),
+                    Err(_) => -2,
+                };
+                let jf = format!("{}/{}.json", outdir, s);
+                if !std::path::Path::new(&jf).exists() {
+                    // hang (exit 3) or abort: synthesize a partial report from what was logged
+                    let hang = std::fs::read_to_string(format!("{}/{}.hang", outdir, s)).ok().map(|x| x.trim().to_string());
+                    let fails: Vec<String> = std::fs::read_to_string(format!("{}/{}.failures.jsonl", outdir, s)).unwrap_or_default().lines().map(|l| l.to_string()).collect();
+                    let cur = format!("{}/{}.current.ops", outdir, s);
+                    let last = std::fs::read_to_string(&cur).ok().and_then(|t| t.lines().last().map(|l| l.to_string()));
+                    let abort_file = format!("{}/{}.abort.ops", outdir, s);
+                    if hang.is_none() {
+                        let _ = std::fs::copy(&cur, &abort_file);
                     }
-                    Err(_) => {
-                        std::fs::write(format!("{}/{}.json", outdir, s), format!("{{\"suite\":{},\"error\":\"suite thread panicked\"}}", json_str(&s))).unwrap();
-                        any_bad = true;
-                        println!("suite {} CRASHED", s);
-                    }
+                    let json = format!(
+                        "{{\"suite\":{},\"partial\":true,\"exit_code\":{},\"hang_line\":{},\"hang_file\":{},\"abort_line\":{},\"abort_file\":{},\"oracle_failures\":[{}]}}",
+                        json_str(&s),
+                        code,
+                        hang.as_ref().map(|h| json_str(h)).unwrap_or("null".into()),
+                        json_str(&format!("{}/{}.hang.ops", outdir, s)),
+                        if hang.is_none() { last.map(|l| json_str(&l)).unwrap_or("null".into()) } else { "null".into() },
+                        json_str(&abort_file),
+                        fails.join(",")
+                    );
+                    std::fs::write(&jf, json).unwrap();
+                    any_bad = true;
+                    println!("suite {} DIED (exit {})", s, code);
+                } else {
+                    let bad = code != 0;
+                    any_bad |= bad;
+                    println!("suite {} {}", s, if bad { "BAD" } else { "ok" });
                 }
             }
             std::process::exit(if any_bad { 1 } else { 0 });
